@@ -1,6 +1,6 @@
 (* C10 -- the property, stated on descriptors (for the theorems) and as a boolean on what the
    harness decodes from the real collator's output (for the correspondence run). *)
-From Coq Require Import ZArith QArith Qabs List Bool Permutation.
+From Coq Require Import ZArith QArith Qabs Qround List Bool Permutation.
 Import ListNotations.
 From KD Require Import C10.Model.
 Open Scope Z_scope.
@@ -59,6 +59,43 @@ Definition mode_partner (m : shuffle_mode) (n : nat) (perm : list nat) (i : nat)
   | Random => nth i perm 0%nat
   end.
 
+
+(* ---------- how large the pasted box should be ---------- *)
+(* The box is meant to cover the fraction 1 - lambda of the image: its half height / half width are
+   floor(0.5 * sqrt(1 - lambda) * h) and floor(0.5 * sqrt(1 - lambda) * w), so that (before clipping at the
+   border) the area is (2 hh)(2 wh) ~ (1 - lambda) h w.  Without square roots: hh is that integer iff *)
+Definition half_ok (lam : Q) (h hh : Z) : Prop :=
+  0 <= hh /\
+  (inject_Z (4 * (hh * hh)) <= (1 - lam) * inject_Z (h * h))%Q /\
+  ((1 - lam) * inject_Z (h * h) < inject_Z (4 * ((hh + 1) * (hh + 1))))%Q.
+(* ... and executable: the integer square root of floor((1 - lambda) h^2 / 4) *)
+Definition half_spec (lam : Q) (h : Z) : Z := Z.sqrt (Qfloor ((1 - lam) * inject_Z (h * h) * (1 # 4))).
+(* area fraction of the unclipped box *)
+Definition unclipped_fraction (h w hh wh : Z) : Q := inject_Z ((2 * hh) * (2 * wh)) / inject_Z (h * w).
+
+(* The implementation evaluates the expression in floating point (float32 in lamb_mode batch, float64 in lamb_mode
+   sample) on the lambda it HOLDS (the float32 rounding of the draw in lamb_mode batch).  Its result must be the exact
+   value for the held lambda; one unit of slack is granted only where v = 0.5*sqrt(1-lambda)*h lies within [tol] of
+   the integer at which the floor jumps.   v >= x  and  v <= x  for rational x, without square roots: *)
+Definition v_ge (lam : Q) (h : Z) (x : Q) : bool :=
+  Qle_bool x 0 || Qle_bool (4 * (x * x)) ((1 - lam) * inject_Z (h * h)).
+Definition v_le (lam : Q) (h : Z) (x : Q) : bool :=
+  Qle_bool 0 x && Qle_bool ((1 - lam) * inject_Z (h * h)) (4 * (x * x)).
+Definition half_plausible (tol lam : Q) (h hh : Z) : bool :=
+  let e := half_spec lam h in
+  (hh =? e)
+  || ((hh =? e + 1) && v_ge lam h (inject_Z (e + 1) - tol))
+  || ((hh =? e - 1) && v_le lam h (inject_Z e + tol)).
+Definition half_tol (f32 : bool) : Q := if f32 then 1 # 10000 else 1 # 1000000.
+Fixpoint halves_plausible (f32 : bool) (h w : Z) (held : list Q) (hv : list (Z * Z)) : bool :=
+  match held, hv with
+  | [], [] => true
+  | l :: held', (hh, wh) :: hv' =>
+      Qle_bool 0 l && Qle_bool l 1 &&
+      half_plausible (half_tol f32) l h hh && half_plausible (half_tol f32) l w wh && halves_plausible f32 h w held' hv'
+  | _, _ => false
+  end.
+
 (* ---------- labels ---------- *)
 Fixpoint mix_row (w : Q) (a b : list Q) : list Q :=
   match a, b with
@@ -89,10 +126,13 @@ Inductive obs_item := BX | BY | BRaw (v : list Z).
 Record obs := {
   o_imgs : list img_obs;
   o_labs : option (list (list Q));
+  o_lab_ndim : nat;                 (* number of dimensions of the returned label tensor *)
   o_apply : list bool;
   o_cutmix : list bool;
   o_lambda : list Q;
-  o_batch : list obs_item
+  o_batch : list obs_item;
+  o_ctx : ctx_t;                    (* the context after the call, entries in dictionary order *)
+  o_held : list Q                   (* the lambdas as the implementation held them when it computed the half sizes *)
 }.
 
 Definition close (tol a b : Q) : bool := Qle_bool (Qabs (a - b)) tol.
@@ -138,11 +178,26 @@ Fixpoint others_same (mode : list token) (i : list item) (o : list obs_item) : b
   | _, _, _ => false
   end.
 
+Fixpoint zlist_eqb (x y : list Z) : bool :=
+  match x, y with [], [] => true | u :: x', v :: y' => (u =? v) && zlist_eqb x' y' | _, _ => false end.
+Definition is_user (k : ckey) : bool := match k with KUser _ => true | _ => false end.
+(* the entries the dataset recorded are still there, bit for bit, in the same order, and nothing else was added under
+   a user key *)
+Fixpoint user_entries_same (a b : ctx_t) : bool :=
+  match a, b with
+  | [], [] => true
+  | (KUser i, VRaw u) :: a', (KUser j, VRaw v) :: b' => Nat.eqb i j && zlist_eqb u v && user_entries_same a' b'
+  | _, _ => false
+  end.
+Definition user_part (ctx : ctx_t) : ctx_t := filter (fun kv => is_user (fst kv)) ctx.
+
 (* the property on one observed batch: for every sample there is a partner (the one the shuffle
    mode prescribes) such that image and label are both explained by that partner and by the
-   lambda the context reports; label rows still sum to one where the inputs did; other items
-   are untouched *)
-Definition spec_obs (c : cfg) (Y : list (list Q)) (tr : trace) (batch : list item) (o : obs) : bool :=
+   lambda the context reports; label rows still sum to one where the inputs did; the label tensor keeps its
+   number of dimensions; other items and the context entries recorded by the dataset are untouched; the half
+   box sizes are the ones the formula prescribes for the lambda held *)
+Definition spec_obs (c : cfg) (hv : list (Z * Z)) (Y : list (list Q)) (tr : trace) (batch : list item) (ctx : ctx_t)
+           (o : obs) : bool :=
   let n := bsz c in
   let perm := first_perm tr in
   Nat.eqb (length (o_imgs o)) n &&
@@ -158,4 +213,7 @@ Definition spec_obs (c : cfg) (Y : list (list Q)) (tr : trace) (batch : list ite
         close_row row (mix_row wt (nth i Y []) (nth p Y [])) &&
         (negb (Qeq_bool (qsum (nth i Y [])) 1 && Qeq_bool (qsum (nth p Y [])) 1) || close tol_lab (qsum row) 1)
     end) (seq 0 n) &&
-  others_same (tokens c) batch (o_batch o).
+  match o_labs o with None => true | Some _ => Nat.eqb (o_lab_ndim o) (lab_ndim c) end &&
+  others_same (tokens c) batch (o_batch o) &&
+  user_entries_same (user_part ctx) (user_part (o_ctx o)) &&
+  halves_plausible (match lamb_mode c with PerBatch => true | PerSample => false end) (img_h c) (img_w c) (o_held o) hv.
